@@ -215,6 +215,13 @@ func init() {
 						if p := accessPath(ld); !strings.HasSuffix(p, ".threshold") || strings.Contains(p, "specificItems") {
 							return
 						}
+						// a field named threshold of a small local struct (the per-value choice handed back by a helper) is
+						// not the rule's general threshold
+						if fa, ok := ld.X.(*ssa.FieldAddr); ok {
+							if _, local := fa.X.(*ssa.Alloc); local {
+								return
+							}
+						}
 						for _, r := range refsOf(ld) {
 							switch x := r.(type) {
 							case *ssa.Phi, *ssa.DebugRef:
